@@ -1,11 +1,15 @@
 /-
   C05 — types are canonical within a context and portable across contexts.
   Property theorems only.  Tables come from Zed.Generated.C05 (regenerated from
-  /repo/type.go, primitive.go, context.go on every check).
+  /repo/type.go, primitive.go, context.go on every check); the model is Zed.Model.TyContext.
 -/
 import Zed.Model.TyContext
+import Zed.Proofs.CompareTypesTrans
+import Zed.Proofs.InsertionSort
+import Zed.Proofs.TypeValue
+import Zed.Proofs.Context
 namespace Zed.Props.C05
-open Zed Zed.Generated.C05
+open Zed Zed.Ord Zed.Generated.C05
 
 /-- Obligation on the regenerated tables: the nine type-value codes are pairwise distinct,
     fit a byte and are not primitive ids (so the first byte of a serialized type determines
@@ -22,5 +26,169 @@ theorem primitive_tables_consistent :
     (primitiveByID.map (·.1)).Nodup ∧
     (∀ e ∈ primitiveNames, e.2.2 ∈ primitiveByID.map (·.1)) ∧
     (primitiveNames.map (·.2.1)).Nodup := by decide
+
+/-! ### the order on types (`zed.CompareTypes`)
+
+  Full statement: `cmpTy` is a total order on structural types (zero only on equal types,
+  antisymmetric, transitive).  Reflexivity and antisymmetry hold for all types.  "Zero only on
+  equal types" and transitivity are FALSE of the current code (`not_compareTypes_eq_iff`,
+  `not_compareTypes_trans`: when two named types share the underlying type only their outermost
+  names are compared) and are proved under the guard `Ty.nnn` (no named type directly wraps a
+  named type) in the `_partial` theorems. -/
+
+theorem compareTypes_refl (a : Ty) : cmpTy a a = .eq := cmpTy_refl a
+
+theorem compareTypes_antisymm (a b : Ty) : cmpTy b a = (cmpTy a b).swap := cmpTy_swap a b
+
+def tInt : Ty := .prim 9
+/-- x=(y=int64) -/
+def tXY : Ty := .named [120] (.named [121] tInt)
+/-- x=(z=int64) -/
+def tXZ : Ty := .named [120] (.named [122] tInt)
+def tRA : Ty := .record (.cons [97] tXY .nil)
+def tRB : Ty := .record (.cons [97] tXZ .nil)
+/-- q={a:x=(y=int64)} -/
+def tQ : Ty := .named [113] tRA
+
+theorem not_compareTypes_eq_iff : ¬ (∀ a b : Ty, cmpTy a b = .eq → a = b) := by
+  intro h
+  exact absurd (h tXY tXZ (by decide)) (by decide)
+
+theorem not_compareTypes_trans :
+    ¬ (∀ a b c : Ty, cmpTy a b ≠ .gt → cmpTy b c ≠ .gt → cmpTy a c ≠ .gt) := by
+  intro h
+  exact h tQ tRB tRA (by decide) (by decide) (by decide)
+
+theorem compareTypes_eq_iff_partial (a b : Ty) (ha : a.nnn = true) (hb : b.nnn = true) :
+    cmpTy a b = .eq ↔ a = b := cmpTy_eq_iff a b ha hb
+
+theorem compareTypes_trans_partial (a b c : Ty) (ha : a.nnn = true) (hb : b.nnn = true) (hc : c.nnn = true) :
+    cmpTy a b ≠ .gt → cmpTy b c ≠ .gt → cmpTy a c ≠ .gt :=
+  (cmpTy_STr a b c ha hb hc).le
+
+/-- non-vacuity: the guard holds for ordinary named types and fails for the witnesses -/
+example : tRA.nnn = false ∧ (Ty.record (.cons [97] (.named [120] tInt) .nil)).nnn = true := by decide
+
+/-! ### union member order -/
+
+private theorem tyLess_strictTotal : StrictTotalOn tyLess (fun t => t.nnn = true) where
+  asymm := by
+    intro a b _ _ h
+    simp only [tyLess, beq_iff_eq] at h
+    simp [tyLess, cmpTy_swap a b, h, Ordering.swap]
+  trans_ge := by
+    intro a b c ha hb hc h1 h2
+    simp only [tyLess, beq_eq_false_iff_ne] at *
+    exact (cmpTy_STr a b c ha hb hc).ge h1 h2
+  antisymm := by
+    intro a b ha hb h1 h2
+    simp only [tyLess, beq_eq_false_iff_ne] at *
+    rw [cmpTy_swap a b] at h2
+    apply (cmpTy_eq_iff a b ha hb).mp
+    revert h1 h2
+    cases cmpTy a b <;> simp [Ordering.swap]
+
+/-- Full statement: `lookupUnion c ts' = lookupUnion c ts` for every permutation `ts'` of `ts` —
+    FALSE of the current code (`not_union_order_irrelevant`); proved when the members satisfy
+    the guard of the type order. -/
+theorem union_order_irrelevant_partial (c : Ctx) (ts ts' : List Ty) (hp : ts'.Perm ts)
+    (hg : ∀ t ∈ ts, t.nnn = true) : c.lookupUnion ts' = c.lookupUnion ts := by
+  unfold Ctx.lookupUnion sortTys
+  rw [insertionSort_eq_of_perm tyLess _ tyLess_strictTotal ts ts' hp hg]
+
+theorem not_union_order_irrelevant :
+    ¬ (∀ (c : Ctx) (ts ts' : List Ty), ts'.Perm ts → (c.lookupUnion ts').1 = (c.lookupUnion ts).1) := by
+  intro h
+  have := h Ctx.empty [tXY, tXZ] [tXZ, tXY] (List.Perm.swap _ _ _)
+  revert this
+  decide
+
+/-! ### serialized type values
+
+  `Ty.wf` (Model/TyContext): implemented primitives, no duplicate field names, union members in
+  the order `LookupTypeUnion` leaves them in, valid type names, and the decoder's size limits. -/
+
+/-- the serialized type value is a function of the structure only (it is defined on `Ty`) and
+    determines it: two well-formed types with the same type value are the same type -/
+theorem typevalue_injective (t₁ t₂ : Ty) (w₁ : t₁.wf = true) (w₂ : t₂.wf = true)
+    (h : encodeTV t₁ = encodeTV t₂) : t₁ = t₂ := encodeTV_injective t₁ t₂ w₁ w₂ h
+
+/-- decoding the type value of a well-formed type, in *any* context that satisfies the context
+    invariant and with any bytes following it, yields exactly that type and consumes exactly
+    its bytes; the context keeps the invariant.  (The typedef map of the encoder is mirrored by
+    the context's `typedefs` in DFS order: `Ctx.Rel` in Proofs/TypeValueRT.) -/
+theorem typevalue_roundtrip (t : Ty) (w : t.wf = true) (c : Ctx) (hc : c.Inv) (rest : Bytes) :
+    ∃ c', c.decode (encodeTV t ++ rest) = some (t, rest, c') ∧ c'.Inv := by
+  obtain ⟨c', h, i, _, _⟩ := Ctx.decodeC_encodeTV c hc t w rest
+  exact ⟨c', by simp [Ctx.decode, h], i⟩
+
+/-- non-vacuity: a record over a named type, a map and a sorted union is well-formed -/
+example : (Ty.record (.cons [97] (.named [120] tInt) (.cons [98] (.map tInt (.prim 25))
+    (.cons [99] (.union (.cons tInt (.cons (.prim 25) .nil))) .nil)))).wf = true := by decide
+
+/-! ### the context
+
+  `Ctx.Inv c` (Proofs/ContextInv): no structure is entered twice (`byID.Nodup`), every entered
+  type is well-formed, `toType` maps the canonical serialization of every entered type to that
+  type and nothing else to it, every value of `toType` and `typedefs` is a type of the context. -/
+
+/-- **context_canonical** (sequential): after any history of operations (record / array / set /
+    map / union / enum / error / named lookups, LookupByValue with arbitrary bytes, TranslateType
+    of well-formed foreign types, LookupTypeValue, LookupTypeDef — arguments being primitives or
+    earlier results) the context satisfies the invariant and every result is a type of the
+    context.  Operations beyond the decoder's size limits are skipped (see `Ctx.exec`). -/
+theorem context_canonical (ops : List Ctx.Op) :
+    (Ctx.runOps ops Ctx.empty []).1.Inv ∧ Ctx.EnvOk (Ctx.runOps ops Ctx.empty []).1 (Ctx.runOps ops Ctx.empty []).2 :=
+  Ctx.runOps_good ops Ctx.empty [] Ctx.inv_empty (by intro r hr; simp at hr)
+
+/-- two ids of a context never hold the same structure, and the ids are dense from
+    `IDTypeComplex` (`lookupType (IDTypeComplex + i) = byID[i]`) -/
+theorem ids_canonical (c : Ctx) (hc : c.Inv) (i j : Nat) (hi : i < c.byID.length) (hj : j < c.byID.length)
+    (h : c.byID[i] = c.byID[j]) : i = j :=
+  (List.getElem_inj hc.nodup).mp h
+
+/-- looking a structure up again returns the same type and enters nothing -/
+theorem lookup_idempotent (c : Ctx) (hc : c.Inv) (t : Ty) (wt : t.wf = true) (ct : t.isComplex = true) :
+    (c.lookupOrEnter t).1 = t ∧
+    ((c.lookupOrEnter t).2.lookupOrEnter t) = (t, (c.lookupOrEnter t).2) := by
+  have sp := Ctx.lookupOrEnter_spec c hc t wt ct
+  refine ⟨sp.1, ?_⟩
+  have hin := sp.2.2.2.2
+  have hmem : t ∈ (c.lookupOrEnter t).2.byID := hin.2.resolve_right (by simp [ct])
+  exact Ctx.lookupOrEnter_hit _ t t (sp.2.1.total t hmem)
+
+/-- **translate_roundtrip**: translating a well-formed type of another context yields the
+    structurally same type, so translating there and back is the identity -/
+theorem translate_roundtrip (c₁ c₂ : Ctx) (h₁ : c₁.Inv) (h₂ : c₂.Inv) (t : Ty) (w : t.wf = true) :
+    (c₂.translate t).1 = some t ∧ ((c₁.translate t).1 = some t) :=
+  ⟨(Ctx.translate_spec c₂ h₂ t w).1, (Ctx.translate_spec c₁ h₁ t w).1⟩
+
+/-! ### what is false of the current code -/
+
+/-- Full statement `typevalue_stable`: the bytes `lookupTypeValue t` returns never change over
+    any later operation.  FALSE: `LookupByValue` stores the caller's bytes as the type's value.
+    Witness: context holding `|[int8]|`; LookupByValue of its encoding followed by one byte. -/
+theorem not_typevalue_stable :
+    ¬ (∀ (c : Ctx) (t : Ty) (b : Bytes) (op : Ctx.Op) (env : Ctx.Env), c.Inv →
+        (c.lookupTypeValue t).1 = some b →
+        ((c.exec env op).2.2.lookupTypeValue t).1 = some b) := by
+  intro h
+  have hc := (Ctx.runOps_good [Ctx.Op.set (.prim 6)] Ctx.empty [] Ctx.inv_empty (by intro r hr; simp at hr)).1
+  have := h (Ctx.runOps [Ctx.Op.set (.prim 6)] Ctx.empty []).1 (.set (.prim 6)) [32, 6] (.byValue [32, 6, 0]) [] hc
+    (by decide)
+  revert this
+  decide
+
+/-- Full statement `nameref_atomicity`: under interleaving of the decoders' atomic steps a
+    NameRef resolves to the decoder's own preceding NameDef.  FALSE on a shared context: between
+    decoder A's `LookupTypeNamed(x, int64)` and its `LookupTypeDef(x)`, decoder B's
+    `LookupTypeNamed(x, string)` rebinds `x`. -/
+theorem not_nameref_atomicity :
+    ¬ (∀ (c : Ctx) (n : Name) (a b : Ty),
+        ((c.lookupNamed n a).2.lookupNamed n b).2.lookupTypeDef n = (c.lookupNamed n a).1) := by
+  intro h
+  have := h Ctx.empty [120] (.prim 9) (.prim 25)
+  revert this
+  decide
 
 end Zed.Props.C05
